@@ -49,7 +49,7 @@ func newRegistry() (step.Registry, *config.Config, error) {
 	if err != nil {
 		return nil, nil, err
 	}
-	reg, err := stepregistry.New(pp, fp)
+	reg, err := stepregistry.New(recProvider{pp}, recProvider{fp})
 	if err != nil {
 		return nil, nil, err
 	}
